@@ -518,7 +518,52 @@ def enumerate_cases(tier):
                 for other_producer in (False, True):
                     cases.append({"kind": "payload-reuse", "mutation": mutation, "timed": timed, "first": first,
                                   "other_producer": other_producer})
+    # a listener whose notify() raises once: it stays subscribed (nobody unsubscribed it)
+    for timed in (False, True):
+        for pos in (0, 1, 2):
+            for nested in (False, True):
+                cases.append({"kind": "raising-listener", "timed": timed, "pos": pos, "nested": nested})
     return cases
+
+
+def _run_raising_listener(case, out):
+    pubsub, types, _m = _env()
+    T, T3 = types[0], types[3]
+    prod = pubsub.EventProducer()
+    got = []
+    state = {"raise": True}
+
+    class L(pubsub.EventListener):
+        def __init__(self, idx):
+            self.idx = idx
+
+        def notify(self, event):
+            got.append(self.idx)
+            if self.idx == case["pos"] and state["raise"]:
+                if case["nested"]:
+                    prod.fire(T3, {"a": "not an int", "b": 1})      # refused payload: EventError passes through
+                raise RuntimeError("transient error in a listener")
+    ls = [L(i) for i in range(3)]
+    for l_ in ls:
+        prod.add_listener(T, l_)
+
+    def fire(v):
+        if case["timed"]:
+            return _guard(lambda: prod.fire_timed(2.5, T, v))
+        return _guard(lambda: prod.fire(T, v))
+    e1 = fire(1)
+    if e1 is None:
+        out.label("listener-error-did-not-reach-the-firing-code")      # (not judged: the property is silent on it)
+    state["raise"] = False
+    del got[:]
+    e2 = fire(2)
+    if e2 is not None:
+        out.fail("delivery:raises", repr(e2))
+    elif got != [0, 1, 2]:
+        out.fail("delivery:missing" if len(got) < 3 else "delivery:order",
+                 {"after": "a listener raised during the previous event", "got": got, "want": [0, 1, 2]})
+    out.nontrivial = True
+    out.label("kind=raising-listener")
 
 
 def _run_payload_reuse(case, out):
@@ -665,6 +710,9 @@ def run_case(case):
     out = Outcome()
     if case.get("kind") == "sim-listeners":
         _run_sim_listeners(case, out)
+        return out
+    if case.get("kind") == "raising-listener":
+        _run_raising_listener(case, out)
         return out
     if case.get("kind") == "payload-reuse":
         _run_payload_reuse(case, out)
